@@ -3,6 +3,10 @@
 (* The library as a state machine.                                         *)
 (*                                                                         *)
 (*   models   <<model record, ..>>  - the model objects a program created  *)
+(*   config   <<model record, ..>>  - the same objects as their owner has   *)
+(*                                    configured them (construction, then  *)
+(*                                    Reconfigure); the library never makes *)
+(*                                    the two differ (Inv_ModelsAsConfigured)*)
 (*   heap     ref -> rating leaf    - every rating object alive, by         *)
 (*                                    allocation number                    *)
 (*   last     the observation of the last public call, in exactly the      *)
@@ -29,8 +33,8 @@ CONSTANTS Models,              \* <<model record>> created before the first call
           LimitSigmaWriteBack, \* defect D3 (repaired): rate(limit_sigma=b) stores b in the model
           RateEffects          \* subset of {"inplace", "untouched"}: what rate may do to the passed objects (C02 allows both)
 
-VARIABLES models, heap, last, depth
-vars == <<models, heap, last, depth>>
+VARIABLES models, config, heap, last, depth
+vars == <<models, config, heap, last, depth>>
 
 InitObs == [op |-> "init"]
 
@@ -45,7 +49,7 @@ RefLeaf(r) == [PV("rating", "") EXCEPT !.ref = r]
 WriteBack(h, val) == LET L == Leaves(val) IN [r \in DOMAIN h |-> IF \E x \in L : x.ref = r THEN CHOOSE x \in L : x.ref = r ELSE h[r]]
 
 MkObs(op, M, M2, c, out, after, X) ==
-  [op |-> op, tid |-> 1, model0 |-> Models[M.id], model |-> M, model_after |-> M2,
+  [op |-> op, tid |-> 1, model0 |-> config[M.id], model |-> M, model_after |-> M2,
    teams |-> c.teams, ranks |-> c.ranks, scores |-> c.scores, tau |-> c.tau, limit |-> c.limit,
    ranks_after |-> c.ranks, scores_after |-> c.scores,
    out |-> out, after |-> after, group |-> "", role |-> "", gprop |-> "", aux |-> PNone, X |-> X]
@@ -66,8 +70,9 @@ Rate(d) ==
       /\ depth' = depth + 1
       /\ IF ~wf
            THEN /\ last' = MkObs("rate", M, M, c, RaiseOut(RateExc(M.kind, c)), c.teams, <<>>)
-                /\ UNCHANGED <<models, heap>>
-           ELSE /\ Computable(M, c) = TRUE      \* "= TRUE": evaluated as an expression (TLC would branch on its disjunctions)
+                /\ UNCHANGED <<models, config, heap>>
+           ELSE /\ UNCHANGED config
+                /\ Computable(M, c) = TRUE      \* "= TRUE": evaluated as an expression (TLC would branch on its disjunctions)
                 /\ LET X   == RateX(M2, c)
                        val == RateValue(c, X)
                    IN  \E eff \in RateEffects :
@@ -84,7 +89,7 @@ Predict(d) ==
       wf == WFTeams(M.kind, teams)
   IN  /\ depth < MaxDepth
       /\ depth' = depth + 1
-      /\ UNCHANGED <<models, heap>>
+      /\ UNCHANGED <<models, config, heap>>
       /\ IF ~wf
            THEN last' = [MkObs(d.op, M, M, c, RaiseOut(TeamsExc(M.kind, teams)), teams, <<>>) EXCEPT !.op = d.op]
            ELSE /\ PredictComputable(M, teams) = TRUE
@@ -112,7 +117,7 @@ NewRating(d) ==
                       IF IsNone(d.mu) THEN M.mu ELSE d.mu.v, IF IsNone(d.sigma) THEN M.sigma ELSE d.sigma.v)
   IN  /\ depth < MaxDepth /\ depth' = depth + 1
       /\ heap' = (r :> leaf) @@ heap
-      /\ UNCHANGED models
+      /\ UNCHANGED <<models, config>>
       /\ last' = [op |-> "rating", tid |-> 1, model |-> M, model_after |-> M, mu |-> d.mu, sigma |-> d.sigma, name |-> d.name,
                   out |-> OkOut(leaf), group |-> "", role |-> "", gprop |-> "", aux |-> PNone]
 
@@ -121,7 +126,7 @@ CreateRating(d) ==
   LET M == models[d.m]
       r == NextRef
   IN  /\ depth < MaxDepth /\ depth' = depth + 1
-      /\ UNCHANGED models
+      /\ UNCHANGED <<models, config>>
       /\ IF CreateWF(d.arg)
            THEN LET leaf == PRating(M.kind, r, FreshUid(r),
                                     IF IsNone(d.name) THEN "none" ELSE "str", IF IsNone(d.name) THEN "" ELSE d.name.v,
@@ -145,7 +150,7 @@ DeepCopy(d) ==
       base == NextRef + 100
       cp == CopyVal(arg, base)
   IN  /\ depth < MaxDepth /\ depth' = depth + 1
-      /\ UNCHANGED models
+      /\ UNCHANGED <<models, config>>
       /\ heap' = LeafMap(Leaves(cp)) @@ heap
       /\ last' = [op |-> "deepcopy", tid |-> 1, arg |-> arg, arg_after |-> arg, out |-> OkOut(cp),
                   group |-> "", role |-> "", gprop |-> "", aux |-> PNone]
@@ -161,7 +166,7 @@ Compare(d) ==
              ELSE (IF op \in OrderOps THEN RaiseOut("ValueError") ELSE OkOut(PBool(op = "ne")))
   IN  /\ depth < MaxDepth /\ depth' = depth + 1
       /\ IsRating(a) = TRUE
-      /\ UNCHANGED <<models, heap>>
+      /\ UNCHANGED <<models, config, heap>>
       /\ last' = [op |-> "cmp", tid |-> 1, cmpop |-> op, a |-> a, b |-> b, a_after |-> a, b_after |-> b,
                   oa |-> PFloat(OrdinalOf(a, "3")), ob |-> IF IsRating(b) THEN PFloat(OrdinalOf(b, "3")) ELSE PNone,
                   out |-> out, group |-> "", role |-> "", gprop |-> "", aux |-> PNone]
@@ -171,13 +176,26 @@ Assign(d) ==
   LET a == heap[d.ref]
       a2 == [a EXCEPT !.mu = d.mu, !.sigma = d.sigma]
   IN  /\ depth < MaxDepth /\ depth' = depth + 1
-      /\ UNCHANGED models
+      /\ UNCHANGED <<models, config>>
       /\ heap' = [heap EXCEPT ![d.ref] = a2]
       /\ last' = [op |-> "assign", tid |-> 1, a |-> a, a_after |-> a2, out |-> OkOut(PNone),
                   group |-> "", role |-> "", gprop |-> "", aux |-> PNone]
 
+\* the owner assigns a public attribute of a model object: from now on that is its configuration.  Nothing is
+\* validated and nothing else changes - whatever the model has been used for before.
+Reconfigure(d) ==
+  LET M  == models[d.m]
+      M2 == [M EXCEPT ![d.attr] = d.value]
+  IN  /\ depth < MaxDepth /\ depth' = depth + 1
+      /\ models' = [models EXCEPT ![d.m] = M2]
+      /\ config' = [config EXCEPT ![d.m] = [@ EXCEPT ![d.attr] = d.value]]
+      /\ UNCHANGED heap
+      /\ last' = [op |-> "setattr", tid |-> 1, model0 |-> config[d.m], model |-> M, model_after |-> M2,
+                  attr |-> d.attr, value |-> d.value, out |-> OkOut(PNone),
+                  group |-> "", role |-> "", gprop |-> "", aux |-> PNone]
+
 ---------------------------------------------------------------------------
-Init == /\ models = Models /\ heap = Cast /\ last = InitObs /\ depth = 0
+Init == /\ models = Models /\ config = Models /\ heap = Cast /\ last = InitObs /\ depth = 0
 
 Next == \/ \E d \in RateCalls(models, heap) : Rate(d)
         \/ \E d \in PredictCalls(models, heap) : Predict(d)
@@ -187,6 +205,7 @@ Next == \/ \E d \in RateCalls(models, heap) : Rate(d)
                 [] d.op = "deepcopy" -> DeepCopy(d)
                 [] d.op = "cmp"      -> Compare(d)
                 [] d.op = "assign"   -> Assign(d)
+                [] d.op = "setattr"  -> Reconfigure(d)
 
 Spec == Init /\ [][Next]_vars
 
@@ -213,8 +232,8 @@ Inv_Obj == last.op \in {"rating", "create", "deepcopy", "cmp", "assign"} =>
 \* C15 as the property states it: the effective options are the call's arguments when given (0 and False are
 \* values), the constructed model's settings otherwise.  Differs from the step's own resolution only under the
 \* defect constants, which is what the negative controls exercise.
-TrueEffTau(c)   == IF IsNone(c.tau) THEN Models[last.model.id].tau ELSE c.tau.v
-TrueEffLimit(c) == IF IsNone(c.limit) THEN Models[last.model.id].limit = "T" ELSE c.limit.v = "1"
+TrueEffTau(c)   == IF IsNone(c.tau) THEN last.model0.tau ELSE c.tau.v
+TrueEffLimit(c) == IF IsNone(c.limit) THEN last.model0.limit = "T" ELSE c.limit.v = "1"
 Inv_C15 == RateOk =>
   LET M == last.model
       Y == RateFn(M.kind, ModelP(M), TeamsVals(last.teams), OutcomeVals(LCall), TrueEffTau(LCall), TrueEffLimit(LCall))
@@ -270,8 +289,9 @@ Inv_C03 == RateOk =>
       Y == RateFn(M.kind, ModelP(M), LT, canon, EffTau(M, LCall), EffLimit(M, LCall))
   IN  \A s \in AllSlots(last) : Y[s[1]][s[2]].mu = last.X[s[1]][s[2]].mu /\ Y[s[1]][s[2]].sigma = last.X[s[1]][s[2]].sigma
 
-\* the model objects never change (action property)
-ModelsNeverChange == [][models' = models]_vars
+\* the model objects never change except by their owner's hand (action property), and are what the owner configured
+ModelsNeverChange == [][models' = models \/ last'.op = "setattr"]_vars
+Inv_ModelsAsConfigured == models = config
 
 \* ---- emission of every explored transition, for replay into the real library
 EmitFile == IOEnv.EMIT_FILE
